@@ -37,9 +37,10 @@ func (p *Prog) resolveKinds() (*Kinds, error) {
 			if len(c.Common().Args) < 2 {
 				continue
 			}
-			x := Strip(c.Common().Args[1])
-			if s, n := StructOf(x.Type()); s != nil && n != nil {
-				added[TypeStr(n)] = s
+			for _, t := range p.concreteTypes(c.Common().Args[1], 0) {
+				if s, n := StructOf(t); s != nil && n != nil {
+					added[TypeStr(n)] = s
+				}
 			}
 		}
 	}
@@ -118,13 +119,15 @@ func (p *Prog) resolveKinds() (*Kinds, error) {
 			if len(c.Common().Args) < 2 {
 				continue
 			}
-			if _, n := StructOf(Strip(c.Common().Args[1]).Type()); n != nil {
-				name := TypeStr(n)
-				if name == rest[0] || name == rest[1] {
-					if k.Out != "" && k.Out != name {
-						return nil, fmt.Errorf("both type-only kinds are registered as inputs: %s, %s", k.Out, name)
+			for _, t := range p.concreteTypes(c.Common().Args[1], 0) {
+				if _, n := StructOf(t); n != nil {
+					name := TypeStr(n)
+					if name == rest[0] || name == rest[1] {
+						if k.Out != "" && k.Out != name {
+							return nil, fmt.Errorf("both type-only kinds are registered as inputs: %s, %s", k.Out, name)
+						}
+						k.Out = name
 					}
-					k.Out = name
 				}
 			}
 		}
@@ -283,4 +286,44 @@ func (p *Prog) kindOf(v ssa.Value, d int, seen map[ssa.Value]bool, out map[strin
 	default:
 		out["?"] = true
 	}
+}
+
+// concreteTypes: the static types of the concrete values that flow into interface value v — directly, or through a
+// parameter of a private helper / local function literal (what its call sites hand in).
+func (p *Prog) concreteTypes(v ssa.Value, d int) []types.Type {
+	if d > 4 {
+		return nil
+	}
+	var out []types.Type
+	for _, s := range Sources(v) {
+		x := Strip(s)
+		if _, isIface := x.Type().Underlying().(*types.Interface); !isIface {
+			out = append(out, x.Type())
+			continue
+		}
+		if prm, ok := x.(*ssa.Parameter); ok {
+			h := prm.Parent()
+			if p.helperOrLocal(h) {
+				idx := paramIdx(prm)
+				for _, site := range p.Callers(h) {
+					if as := site.Common().Args; idx >= 0 && idx < len(as) {
+						out = append(out, p.concreteTypes(as[idx], d+1)...)
+					}
+				}
+			}
+		}
+	}
+	return out
+}
+
+// helperOrLocal: like PrivateHelper but usable while roles are still being resolved (no role exclusion).
+func (p *Prog) helperOrLocal(h *ssa.Function) bool {
+	if h == nil || !p.InTarget(h) || len(h.Blocks) == 0 {
+		return false
+	}
+	if h.Parent() != nil {
+		return p.localClosure(h)
+	}
+	_, ok := p.helperLike(h)
+	return ok
 }
